@@ -387,7 +387,11 @@ class Program:
             attr = fn.attr
             base = fn.value
             if isinstance(base, ast.Call) and isinstance(base.func, ast.Name) and base.func.id == 'super' and f.cls:
-                for c in self.mro(f.cls)[1:]:
+                mro = self.mro(f.cls)[1:]
+                if base.args and isinstance(base.args[0], ast.Name) and base.args[0].id in self.mro(f.cls):
+                    # super(Class, self): the search starts after Class
+                    mro = self.mro(f.cls)[self.mro(f.cls).index(base.args[0].id) + 1:]
+                for c in mro:
                     q = '%s.%s.%s' % (self.classes[c][0], c, attr)
                     if q in self.fns:
                         f.calls.add(q)
